@@ -1540,6 +1540,10 @@ func logRun(e *Env) {
 	}
 	e.LinkPlan = func(l *simnet.Link) {
 		l.ChunkMode = g.Intn(4)
+		if fault == 6 && l.ID == 1 {
+			// the TLS ClientHello carries bytes from crypto/rand: sizes only in the event log
+			l.Opaque = true
+		}
 		switch fault {
 		case 1:
 			l.WriteErrAtOp = passLine
